@@ -1,7 +1,85 @@
-import OnosVerif.Path.Model
+/-
+C16 — textual paths and gNMI paths are one and the same.
+
+Property theorems only (helper lemmas live in OnosVerif/Proofs/Path.lean).  The twin
+(OnosVerif/Path/Model.lean) mirrors StrPathElem / SplitPath / ParseGNMIElements / GetParentPath and
+is tied to the Go code by the correspondence check `harness/props/c16`.
+
+Quantifier: all paths.  `pathAccepted` is the property's own domain (YANG-identifier names,
+optionally module-prefixed, identifier key names, non-empty key values over ANY characters —
+the accepted alphabet plus / ] [ \ = and everything else); `pathWF` is the weaker condition the
+proofs need (`C16_accepted_is_wf`), so every theorem holds on a superset of the property's domain.
+-/
+import OnosVerif.Proofs.Path
+
 namespace OnosVerif.Props.C16
 open OnosVerif.Path
 
-theorem placeholder : strPathElem [] = [] := rfl
+/-- every path in the property's domain is well-formed in the sense the proofs use. -/
+theorem C16_accepted_is_wf (p : GPath) (h : pathAccepted p = true) : pathWF p = true :=
+  pathAccepted_wf p h
+
+/-- Round trip: converting a gNMI path to text and back yields the same elements and keys. -/
+theorem C16_roundtrip (p : GPath) (h : pathWF p = true) : parsePath (strPathElem p) = .ok p := by
+  unfold parsePath
+  rw [splitPath_strPathElem p h]
+  exact parseElements_bodies p h
+
+/-- Injectivity: two different paths never share a textual form. -/
+theorem C16_injective (p q : GPath) (hp : pathWF p = true) (hq : pathWF q = true)
+    (h : strPathElem p = strPathElem q) : p = q := by
+  have h1 := C16_roundtrip p hp
+  have h2 := C16_roundtrip q hq
+  rw [h] at h1
+  rw [h1] at h2
+  exact Except.ok.inj h2
+
+/-- Splitting respects brackets and escapes: the tokens are exactly the elements' own texts,
+    however many `/`, `]`, `[`, `\`, `=` their key values contain. -/
+theorem C16_split_respects_brackets (p : GPath) (h : pathWF p = true) :
+    splitPath (strPathElem p) = p.map (fun e => (strElem e).tail) := by
+  rw [splitPath_strPathElem p h]
+  apply List.map_congr_left
+  intro e he
+  have hwe : elemWF e = true := by
+    simp only [pathWF, List.all_eq_true] at h; exact h e he
+  rw [strElem_eq e (elemWF_sorted e hwe)]
+  rfl
+
+/-- `StrPath` (the form used by Set/Get) of a non-empty path is that same text. -/
+theorem C16_strPath_nonempty (p : GPath) (h : p ≠ []) : strPath p = strPathElem p := by
+  cases p with
+  | nil => exact absurd rfl h
+  | cons _ _ => rfl
+
+/-- Parent (the part that holds): the parent of a path is that path without its last element,
+    provided the last element carries no `/` in its name or key values.
+    The full statement (any accepted key value) is false of code and twin alike:
+    `C16_parent_full_fails`, known finding KF-C16-parent-slash. -/
+theorem C16_parent_partial (p : GPath) (e : Elem) (hs : keysSorted e.keys = true)
+    (hns : elemNoSlash e = true) :
+    getParentPath (strPathElem (p ++ [e])) = strPathElem p :=
+  getParentPath_append p e hs hns
+
+def witnessParent : GPath :=
+  [{ name := ['a'], keys := [] }, { name := ['l'], keys := [(['k'], ['x', '/', 'y'])] }]
+
+/-- negation witness for the full parent statement: `/a/l[k=x/y]`. -/
+theorem C16_parent_full_fails :
+    pathAccepted witnessParent = true ∧
+    getParentPath (strPathElem witnessParent) ≠ strPathElem witnessParent.dropLast := by
+  decide
+
+/-! non-vacuity: concrete non-trivial paths satisfy the hypotheses -/
+
+def sample : GPath :=
+  [{ name := "m:a".toList, keys := [] },
+   { name := "list".toList, keys := [("j".toList, "x/y]z\\".toList), ("k".toList, "[1=2]".toList)] },
+   { name := "b-c".toList, keys := [] }]
+
+example : pathAccepted sample = true := by decide
+example : pathWF sample = true := by decide
+example : parsePath (strPathElem sample) = .ok sample := C16_roundtrip sample (by decide)
+example : elemNoSlash { name := "b-c".toList, keys := [] } = true := by decide
 
 end OnosVerif.Props.C16
